@@ -164,9 +164,16 @@ func runPlan(w *tr.Writer, hid int, p Plan, workers int, mode string, policy int
 			}
 		}
 	}
+	// free mode: every worker also hands the segment it expands to the library's own collectors (shared by all workers)
+	nodeCollector, pathCollector := traversal.NewNodeCollector(), traversal.NewPathCollector()
 	driver := func(dctx context.Context, _ graph.Transaction, seg *graph.PathSegment) ([]*graph.PathSegment, error) {
 		id := int(seg.Node.ID)
 		log.add(map[string]any{"e": "dstart", "hid": hid, "seg": id})
+		if mode == "free" {
+			nodeCollector.Collect(seg)
+			nodeCollector.Add(seg.Node)
+			pathCollector.Add(graph.Path{Nodes: []*graph.Node{seg.Node}})
+		}
 		if id == blockSeg {
 			enteredOnce.Do(func() { close(entered) })
 			select {
@@ -286,6 +293,10 @@ func runPlan(w *tr.Writer, hid int, p Plan, workers int, mode string, policy int
 	time.Sleep(2 * time.Millisecond)
 	for _, e := range log.snapshot()[nBefore:] { // expansions that started after the call returned
 		w.Emit(e)
+	}
+	if mode == "free" && err == nil && !p.Cancel && p.Fail < 0 {
+		// a complete traversal: the shared collectors hold every segment's node once and one path per expansion
+		w.Emit(map[string]any{"e": "collected", "hid": hid, "n": p.N, "nodes": nodeCollector.Nodes.Len(), "paths": pathCollector.Paths.Len()})
 	}
 }
 
